@@ -1533,3 +1533,8 @@ fn default_enable_batch_metrics() -> bool {
 fn default_metrics_sample_rate() -> u32 {
     1 // No sampling by default
 }
+
+/// Accessors for out-of-tree Kani harnesses; compiled only under `--cfg kani`.
+#[cfg(kani)]
+#[path = "verif_hooks_config.rs"]
+pub mod verif_hooks_config;
